@@ -445,25 +445,67 @@ pub fn run(ctx: &mut Ctx, c: &Case) -> (String, String) {
             let rk = ranker(c.str("rank"));
             let k = c.num("k");
             let rev = c.str("dir") == "r";
-            record(hs, xs, || {
+            // with own=<j> the needle is copied to the heap by into_owned(): its loads are not attributable to the
+            // registered needle slice, so such cases are compared by results only (trace "?")
+            let plain = !c.str("own").is_empty();
+            let body = || {
                 let mut outs: Vec<String> = Vec::new();
+                // own=<j>: after j calls the iterator is converted with into_owned() (or cloned, in builds without
+                // alloc) and the traversal continues on the converted iterator
+                let own = if c.str("own").is_empty() { usize::MAX } else { c.num("own") };
                 if rev {
                     let f = memchr::memmem::FinderRev::new(xs);
                     let mut it = f.rfind_iter(hs);
-                    for _ in 0..k {
+                    for j in 0..k {
+                        if j == own {
+                            #[cfg(feature = "alloc")]
+                            {
+                                let mut o = it.into_owned();
+                                for _ in j..k {
+                                    outs.push(opt(o.next()));
+                                }
+                                break;
+                            }
+                            #[cfg(not(feature = "alloc"))]
+                            {
+                                it = it.clone();
+                            }
+                        }
                         outs.push(opt(it.next()));
                     }
                 } else {
                     let f = build_finder(&cfg, rk, xs);
                     let mut it = f.find_iter(hs);
-                    for _ in 0..k {
+                    for j in 0..k {
+                        if j == own {
+                            #[cfg(feature = "alloc")]
+                            {
+                                let mut o = it.into_owned();
+                                for _ in j..k {
+                                    let (lo, hi) = o.size_hint();
+                                    let hi = hi.map(|x| x.to_string()).unwrap_or("inf".to_string());
+                                    outs.push(format!("{}-{}:{}", lo, hi, opt(o.next())));
+                                }
+                                break;
+                            }
+                            #[cfg(not(feature = "alloc"))]
+                            {
+                                it = it.clone();
+                            }
+                        }
                         let (lo, hi) = it.size_hint();
                         let hi = hi.map(|x| x.to_string()).unwrap_or("inf".to_string());
                         outs.push(format!("{}-{}:{}", lo, hi, opt(it.next())));
                     }
                 }
                 outs.join(";")
-            })
+            };
+            if plain {
+                let r = catch_unwind(AssertUnwindSafe(body));
+                (r.unwrap_or_else(|_| "Panic".to_string()), "?".to_string())
+            } else {
+                record(hs, xs, body)
+            }
         }
         _ => {
             let _ = opt(None);
